@@ -472,7 +472,7 @@ func init() {
 		},
 		Rule:        "the first cases replay every committed reference vector (golden/vectors.json: for each recorded tree the library re-inserts the recorded entries and every Store(name, bytes) and the root must equal the recorded ones, and the recorded node set must load back to the recorded contents; every (type, bf, key) layer, every (type, a, b) order result; NewRoot defaults and format names); the remaining cases are differentials on seeded inputs: a random tree persisted by the library vs the node set produced by the independent encoder/hasher/builder (byte for byte, every node), random keys of every built-in type (incl. int8..uint32, extremes) through DefaultLayer and random pairs through DefaultKeyCompare vs the independent implementations; non-trivial = a vector/differential with >= 1 entry (trees) or a non-zero layer (keys); distinct by item",
 		Assumptions: []string{"golden vectors were generated by the library at the pinned commit and cross-checked by python hashlib.blake2b and internal/ref; stability is relative to that commit"},
-		MinObs:      map[string]int64{"golden_trees_replayed": 290, "golden_nodes_compared": 1000, "golden_layers_compared": 5000, "golden_orders_compared": 500, "diff_nodes_compared": 5000, "diff_layers_compared": 5000},
+		MinObs:      map[string]int64{"golden_trees_replayed": 290, "golden_nodes_compared": 1000, "golden_layers_compared": 5000, "golden_orders_compared": 500, "diff_nodes_compared": 5000, "diff_layers_compared": 5000, "boundary_trees": 100},
 		Run:         runC14,
 	})
 }
@@ -623,8 +623,76 @@ func c14GoldenTree(c *fw.C, gt *goldenTree) {
 	}
 }
 
+// c14Boundary builds single-node trees whose element counts and marshaled
+// lengths sit on the varint boundaries of the binary format (127/128/129,
+// 16383/16384/16385) and compares every byte with the independent encoder.
+func c14Boundary(c *fw.C) {
+	r := c.R
+	cfg := kinds.Cfg{BF: []uint{16, 64, 100}[r.Intn(3)], Format: formats[r.Intn(2)], KK: kinds.KUser, VK: kinds.VString, Cache: "none", Codec: "json"}
+	e := kinds.NewEnv(cfg)
+	s, err := newSide(e)
+	if err != nil {
+		return
+	}
+	n := []int{1, 3, 126, 127, 128, 129, 130, 255, 256, 257}[r.Intn(10)]
+	lens := []int{125, 126, 127, 128, 129, 130, 16381, 16382, 16383, 16384, 16385, 16386}
+	for i := 0; i < n; i++ {
+		vl := r.Range(1, 20)
+		if i < 3 || r.Chance(1, 40) {
+			vl = lens[r.Intn(len(lens))] - 2 // the JSON quotes
+		}
+		b := make([]byte, vl)
+		for j := range b {
+			b[j] = 'a' + byte(r.Intn(26))
+		}
+		if err := s.ins(e, kinds.UKey{ID: i, L: 0}, string(b)); err != nil {
+			c.Obs("build_failed", 1)
+			return
+		}
+	}
+	if err := s.persist(e, false); err != nil {
+		c.Obs("build_failed", 1)
+		return
+	}
+	c.Obs("boundary_trees", 1)
+	wantRoot, _, wantNodes := ref.Build(s.M.Entries(cfg.BF), int(cfg.BF), cfg.Format)
+	got := ""
+	if s.Root.Link != nil {
+		got = *s.Root.Link
+	}
+	ctx := map[string]string{"format": string(cfg.Format), "key": "userkey"}
+	if got != wantRoot {
+		var b []byte
+		if got != "" {
+			b, _ = e.Store.Get(got)
+		}
+		c.Violation("C14.bytes_stable", ctx, "a node with %d entries (value lengths on varint boundaries) is written as %d bytes named %s; the published format gives %d bytes named %s; first bytes %q vs %q", n, len(b), got, len(wantNodes[wantRoot]), wantRoot, trunc(b, 24), trunc(wantNodes[wantRoot], 24))
+		return
+	}
+	// and it must load back
+	t, err := e.Load(s.Root)
+	if err == nil {
+		var keys, vals []interface{}
+		keys, vals, err = kinds.Dump(e.Ctx, t)
+		if err == nil {
+			if msg := kinds.CompareDump(s.M, keys, vals); msg != "" {
+				err = fmt.Errorf("%s", msg)
+			}
+		}
+	}
+	if err != nil {
+		c.Violation("C14.old_trees_load", ctx, "a node with %d entries (value lengths on varint boundaries) does not load back: %v", n, err)
+		return
+	}
+	c.NonTrivial(fw.Mix(fw.StrHash("boundary"+cfg.String()), uint64(n), s.M.Fingerprint()))
+}
+
 func c14Differential(c *fw.C) {
 	r := c.R
+	if c.Idx%8 == 0 {
+		c14Boundary(c)
+		return
+	}
 	// (a) a random tree, every node byte for byte against the independent builder
 	cfg := pickCfg(r)
 	cfg.Cache = "none"
